@@ -374,3 +374,4 @@ def replay(pid: str, body: dict) -> int:
 
 import checks_b  # noqa: E402,F401  (registers C06..C10)
 import checks_c  # noqa: E402,F401  (registers C11..C15)
+import checks_d  # noqa: E402,F401  (registers C16..C20)
